@@ -13,7 +13,6 @@ Section Whole2Conv.
   Variable okfn : ident -> Prop.
   Variable purev : ident -> bool.
   Hypothesis Hpure : forall f, okfn f -> pure_fn call f.
-  Hypothesis Hinh : f_inherited fl = [].
 
   Notation den2 := (den2 call).
   Notation eval_lv' := (eval_lv t fl call).
@@ -23,11 +22,13 @@ Section Whole2Conv.
   Section Fixed.
     Variable w : world.
     Hypothesis Hnd : sig_nodup w.
+    Hypothesis Hac : sig_antichain w.
+    Hypothesis Hws : wstatic t fl w.
 
     Lemma force_v2_conv g lv v ls pl : vinv2 w g ls -> den2 w false lv v -> nob pl ->
       convP (fun F => eval_lv' F lv ls pl) (fun v' ls' pl' => v' = v /\ nob pl' /\ vinv2 w g ls').
     Proof.
-      intros (Hg & Hst & Hsc) Hd Hb. eapply convP_mono; [apply (force1_full_convP call t fl w lv v ls pl Hnd Hst Hsc Hd Hb)|].
+      intros (Hg & Hst & Hsc) Hd Hb. eapply convP_mono; [apply (force1_full_convP call t fl w lv v ls pl Hnd Hac Hws Hst Hsc Hd Hb)|].
       intros v' ls' pl' (-> & Hb' & st' & sc' & -> & Hst' & Hsc'). split; [reflexivity|]. split; [exact Hb'|]. apply vinv2_intro; first [assumption|reflexivity].
     Qed.
     Lemma force_gnode2_conv g lv x ls pl : vinv2 w g ls -> den2 w false lv (VGraph x) -> nob pl ->
@@ -127,7 +128,7 @@ Section Whole2Conv.
       destruct st as [n attrs dbg|a b ea dbg|a b attrs dbg|args dbg]; cbn [print_ok2] in Hst; try contradiction. apply convP_ctx.
       assert (Hargs : forall ls0 pl1, vinv2 w g ls0 -> nob pl1 ->
                 convP (fun F => iterM (fun a : option lvalue => match a with Some lv => eval_lv' F lv ;;; ret tt | None => ret tt end) args ls0 pl1) (vpost2 w g)).
-      { clear -Hst Hnd. induction args as [|a args IHa]; intros ls0 pl1 HV Hb; cbn [iterM]; [apply convP_ret; split; assumption|].
+      { clear -Hst Hnd Hac Hws. induction args as [|a args IHa]; intros ls0 pl1 HV Hb; cbn [iterM]; [apply convP_ret; split; assumption|].
         inversion Hst as [|? ? Ha Hrest]; subst. apply convP_bind. destruct a as [lv|].
         - destruct Ha as [v Hv]. apply (convP_bind (fun F => eval_lv' F lv) (fun _ _ => ret tt)).
           eapply convP_mono; [apply (force_v2_conv g lv v ls0 pl1 HV Hv Hb)|]. intros v' ls1 pl2 (-> & Hb1 & HV1).
@@ -146,7 +147,7 @@ Section Whole2Conv.
         inversion HF as [|? ? Hi HF']; subst. apply convP_bind. apply (convP_bind (fun F => force_thunk t fl call F (N.of_nat i)) (fun _ _ => ret tt)).
         destruct HV0 as (Hg0 & Hst0 & Hsc0).
         assert (Hi0 : (i < length (l_store ls0))%nat) by (rewrite <- (proj1 Hst0); exact Hi).
-        eapply convP_mono; [apply (force1_full_thunk_convP call t fl w i ls0 pl0 Hnd Hst0 Hsc0 Hi0 Hb0)|]. intros v ls1 pl1 (Hb1 & st' & sc' & -> & Hst' & Hsc').
+        eapply convP_mono; [apply (force1_full_thunk_convP call t fl w i ls0 pl0 Hnd Hac Hws Hst0 Hsc0 Hi0 Hb0)|]. intros v ls1 pl1 (Hb1 & st' & sc' & -> & Hst' & Hsc').
         apply convP_ret. apply (IHl _ pl1 HF'); [apply vinv2_intro; first [assumption|reflexivity]|exact Hb1]. }
       apply Hgen; [|exact HV|exact Hb]. apply Forall_forall. intros i Hi. apply in_seq in Hi. lia.
     Qed.
@@ -161,20 +162,21 @@ Section Whole2Conv.
     Qed.
   End Fixed.
 
-  Lemma evaluate_phase_conv2 w ss ls pl : Rel2 call purev w ss ls -> nob pl ->
+  Lemma evaluate_phase_conv2 w ss ls pl : inh_antichain t fl (s_scoped ss) -> Rel2 t fl call purev w ss ls -> nob pl ->
     convP (fun F => evaluate_phase t fl call F ls pl) (fun _ ls' _ => l_graph ls' = s_graph ss).
   Proof.
+    intros Hanti HR. destruct (rel2_antichain t fl call purev w ss ls Hanti HR) as [Hac Hws]. revert HR.
     intros ((Hst & _ & _) & Hcells & Hnd & _ & Hpr & eops & aopss & g1 & He & Ha & Hg1 & Hg2) Hb. unfold evaluate_phase. apply convP_get.
     assert (HV : vinv2 w (l_graph ls) ls) by (apply vinv2_intro; [reflexivity|exact Hst|apply cells_unforced_ok, Hcells]).
-    apply convP_bind. eapply convP_mono; [apply (eval_edge_stmts2_conv w Hnd _ _ _ _ ls pl He HV Hg1 Hb)|]. intros _ ls1 pl1 [Hb1 HV1].
-    apply convP_bind. eapply convP_mono; [apply (eval_attr_stmts2_conv w Hnd _ _ _ _ ls1 pl1 Ha HV1 Hg2 Hb1)|]. intros _ ls2 pl2 [Hb2 HV2].
-    apply convP_bind. eapply convP_mono; [apply (eval_print_stmts2_conv w Hnd _ _ ls2 pl2 Hpr HV2 Hb2)|]. intros _ ls3 pl3 [Hb3 HV3].
-    apply convP_bind. eapply convP_mono; [apply (eval_store_all2_conv w Hnd _ ls3 pl3 HV3 Hb3)|]. intros _ ls4 pl4 [Hb4 HV4].
+    apply convP_bind. eapply convP_mono; [apply (eval_edge_stmts2_conv w Hnd Hac Hws _ _ _ _ ls pl He HV Hg1 Hb)|]. intros _ ls1 pl1 [Hb1 HV1].
+    apply convP_bind. eapply convP_mono; [apply (eval_attr_stmts2_conv w Hnd Hac Hws _ _ _ _ ls1 pl1 Ha HV1 Hg2 Hb1)|]. intros _ ls2 pl2 [Hb2 HV2].
+    apply convP_bind. eapply convP_mono; [apply (eval_print_stmts2_conv w Hnd Hac Hws _ _ ls2 pl2 Hpr HV2 Hb2)|]. intros _ ls3 pl3 [Hb3 HV3].
+    apply convP_bind. eapply convP_mono; [apply (eval_store_all2_conv w Hnd Hac Hws _ ls3 pl3 HV3 Hb3)|]. intros _ ls4 pl4 [Hb4 HV4].
     eapply convP_mono; [apply (eval_scoped_all2_conv w Hnd _ ls4 pl4 HV4 Hb4)|]. intros _ ls5 pl5 [Hb5 (Hg5 & _)]. exact Hg5.
   Qed.
 
-  Notation xconvU2 := (xconv2 call purev (@anyQ unit unit)).
-  Lemma xconv2_lext {A B} (Q : A -> B -> Prop) ms (mlf mlf' : nat -> M lstate B) : (forall lf s p, mlf lf s p = mlf' lf s p) -> xconv2 call purev Q ms mlf' -> xconv2 call purev Q ms mlf.
+  Notation xconvU2 := (xconv2 t fl call purev (@anyQ unit unit)).
+  Lemma xconv2_lext {A B} (Q : A -> B -> Prop) ms (mlf mlf' : nat -> M lstate B) : (forall lf s p, mlf lf s p = mlf' lf s p) -> xconv2 t fl call purev Q ms mlf' -> xconv2 t fl call purev Q ms mlf.
   Proof. intros E H ss p a ss' p' Hs ls pl HR Hb. eapply convP_ext; [intros lf; apply E|]. apply (H _ _ _ _ _ Hs ls pl HR Hb). Qed.
 
   Notation lstep' := (lstep t fl glob regexes find call).
@@ -185,8 +187,8 @@ Section Whole2Conv.
   Proof.
     intros Hst. induction qs as [|q qs IH]; intros HF; cbn [iterM map]; [apply xconv2_ret; exact I|].
     inversion HF as [|? ? (H1 & H2 & H3) HF']; subst.
-    apply (xconv2_seq call purev anyQ _ (fun lf => lstep' lf (i, q)) _ (fun lf => iterM (lstep' lf) (map (fun q0 => (i, q0)) qs))); [|apply IH, HF'].
-    unfold lstep. cbn [fst snd]. rewrite Hst. apply (stanza_conv2 t fl glob regexes find call okfn purev Hpure Hinh q H2 fuel st H1 H3).
+    apply (xconv2_seq t fl call purev anyQ _ (fun lf => lstep' lf (i, q)) _ (fun lf => iterM (lstep' lf) (map (fun q0 => (i, q0)) qs))); [|apply IH, HF'].
+    unfold lstep. cbn [fst snd]. rewrite Hst. apply (stanza_conv2 t fl glob regexes find call okfn purev Hpure q H2 fuel st H1 H3).
   Qed.
 
   Lemma file_conv2 fuel : forall sts ms i,
@@ -197,7 +199,7 @@ Section Whole2Conv.
     induction sts as [|st sts IH]; intros [|qs ms] i Hnth Hok; cbn [exec_file lmatches_from file_ok2] in *; try (apply xconv2_ret; exact I); [contradiction|].
     destruct Hok as [Hqs Hrest].
     apply (xconv2_lext anyQ _ _ (fun lf => iterM (lstep' lf) (map (fun q => (i, q)) qs) ;;; iterM (lstep' lf) (lmatches_from (i + 1) ms))); [intros lf s p; apply iterM_app|].
-    apply (xconv2_seq call purev anyQ _ (fun lf => iterM (lstep' lf) (map (fun q => (i, q)) qs)) _ (fun lf => iterM (lstep' lf) (lmatches_from (i + 1) ms))).
+    apply (xconv2_seq t fl call purev anyQ _ (fun lf => iterM (lstep' lf) (map (fun q => (i, q)) qs)) _ (fun lf => iterM (lstep' lf) (lmatches_from (i + 1) ms))).
     - apply stanza_matches_conv2; [|exact Hqs]. rewrite <- (Nat.add_0_r (N.to_nat i)). apply Hnth. reflexivity.
     - apply IH; [|exact Hrest]. intros j st' Hj. rewrite N2Nat.inj_add. change (N.to_nat 1) with 1%nat.
       replace (N.to_nat i + 1 + j)%nat with (N.to_nat i + S j)%nat by lia. apply Hnth. exact Hj.
@@ -207,22 +209,22 @@ End Whole2Conv.
 (* adequacy: some lazy fuel suffices, and then every larger fuel gives the same graph *)
 Theorem strict_lazy_adequate_scoped_lemma {rx : Type} t fl supplied (regexes : list rx) find call (okfn : ident -> Prop) (purev : ident -> bool) fuel ms g0 s p :
   (forall f, okfn f -> pure_fn call f) ->
-  f_inherited fl = [] ->
   file_ok2 okfn purev fl (f_stanzas fl) ms ->
   run_strict t fl config0 supplied None regexes find call fuel ms g0 = Ok (s, p) ->
+  inh_antichain t fl (s_scoped s) ->
   exists lfuel0, forall lfuel, (lfuel0 <= lfuel)%nat ->
     exists ls pl, run_lazy t fl config0 supplied None regexes find call lfuel (lmatches_of ms) g0 = Ok (ls, pl) /\ l_graph ls = s_graph s.
 Proof.
-  intros Hpure Hinh Hok Hs. unfold run_strict in Hs. unfold run_lazy.
+  intros Hpure Hok Hs Hanti. unfold run_strict in Hs. unfold run_lazy.
   destruct (check_globals (f_globals fl) (globals_nested supplied)) as [glob|e|x|]; try discriminate.
   destruct (exec_file t fl config0 glob regexes find call fuel (f_stanzas fl) ms (sinit g0) (polls0 None)) as [[[u s1] p1]|e|x|] eqn:Es; try discriminate.
   inversion Hs; subst s1 p1; clear Hs.
-  pose proof (file_conv2 t fl glob regexes find call okfn purev Hpure Hinh fuel (f_stanzas fl) ms 0 (fun j st H => H) Hok _ _ _ _ _ Es (linit g0) (polls0 None) (rel2_init call purev g0) eq_refl) as Hx.
+  pose proof (file_conv2 t fl glob regexes find call okfn purev Hpure fuel (f_stanzas fl) ms 0 (fun j st H => H) Hok _ _ _ _ _ Es (linit g0) (polls0 None) (rel2_init t fl call purev g0) eq_refl) as Hx.
   assert (HC : convP (fun lf => lexec_file t fl config0 glob regexes find call lf (lmatches_of ms) (linit g0) (polls0 None)) (fun _ ls' _ => l_graph ls' = s_graph s)).
   { unfold lexec_file, lmatches_of.
     apply (convP_bind (fun lf => iterM (lstep t fl glob regexes find call lf) (lmatches_from 0 ms)) (fun lf _ => evaluate_phase t fl call (lf + default_eval_fuel))).
     eapply convP_mono; [exact Hx|]. intros _ ls1 pl1 (Hb1 & [w HR1] & _).
     apply (convP_reindex (fun F => evaluate_phase t fl call F ls1 pl1) (fun lf => (lf + default_eval_fuel)%nat)); [intros; lia|].
-    apply (evaluate_phase_conv2 t fl call purev w s ls1 pl1 HR1 Hb1). }
+    apply (evaluate_phase_conv2 t fl call purev w s ls1 pl1 Hanti HR1 Hb1). }
   destruct HC as (B & u2 & ls2 & pl2 & HB & Hg). exists B. intros lfuel Hl. exists ls2, pl2. rewrite (HB lfuel Hl). auto.
 Qed.
